@@ -35,7 +35,7 @@ INVS = ("INVARIANT Inv_Confined\nINVARIANT Inv_Cleanup\nINVARIANT Inv_SkipRules\
 TRACE_CFG = ('SPECIFICATION TraceSpec\nCONSTRAINT TraceAccept\nCONSTANTS Fmts = {"zip"}\n MemberTypes <- MT_C10\n'
              ' MaxMembers = 0\n MaxK = 0\n Deviations = {}\n Mode = "%s"\n')
 SENS = {"RereadUnchecked": "Inv_Confined / Inv_Closed", "NoCleanupOnEarlyExit": "Inv_Cleanup",
-        "FollowHardlinks": "Inv_SkipRules", "ReadByName": "Inv_SkipRules / Inv_OwnContent", "ExtractToCwd": "Inv_Confined", "YieldHidden": "Inv_SkipRules"}
+        "BackslashAfterCheck": "Inv_Confined", "FollowHardlinks": "Inv_SkipRules", "ReadByName": "Inv_SkipRules / Inv_OwnContent", "ExtractToCwd": "Inv_Confined", "YieldHidden": "Inv_SkipRules"}
 
 
 def dump_cases(ctx, universe, max_members, max_k, name):
